@@ -198,7 +198,8 @@ func isValidFlag(s string) bool {
 			}
 		}
 	}
-	return len(s) > 0
+	// A lone backslash isn't a valid flag-extension
+	return len(s) > 0 && s != "\\"
 }
 
 func (enc *Encoder) Number(v uint32) *Encoder {
